@@ -12,7 +12,7 @@ tie:    harness/c06_bb.cc calls the REAL private static solve_mip / is_mip_satis
         checks every LP answer against the verified LP reference (the oracle hypothesis), and judges the
         conclusions of C06.solve_mip_sound on the real result of every node with the verified MIP reference.
         The public answers of the same objects go through the existing judges of checks/c06.py.
-A `lp-oracle` / `sub-answer` failure is a wrong answer of the real code on concrete data: VIOLATION with the
+A `lp-oracle` / `sub-answer` / `sat-answer` failure is a wrong answer of the real code on concrete data: VIOLATION with the
 instance as replay.  A `node` / `sat-node` / `branch-var` / `top` difference alone (real result right, model
 different) is a broken correspondence: VIOLATION … no-failing-input-found.
 """
@@ -171,7 +171,7 @@ def run(ctx):
             cl = cases.get(cid, [])
             root = next((l for l in cl if l.startswith("root ")), "")
             kinds = sorted(set(v[2] for v in vs))
-            wrong_answer = [v for v in vs if v[2] in ("lp-oracle", "sub-answer")]
+            wrong_answer = [v for v in vs if v[2] in ("lp-oracle", "sub-answer", "sat-answer")]
             first = (wrong_answer or vs)[0]
             cls = "+".join(kinds)
             reported[cls] += 1
@@ -179,9 +179,11 @@ def run(ctx):
                 continue
             found = bool(wrong_answer)
             if found:
-                site = "MIP_Problem::solve_mip" if first[2] == "sub-answer" else "MIP_Problem::lp_of_bb_node"
+                site = {"sub-answer": "MIP_Problem::solve_mip", "sat-answer": "MIP_Problem::is_mip_satisfiable"}.get(
+                    first[2], "MIP_Problem::lp_of_bb_node")
                 what = ("C06 branch-and-bound: the real %s at node %s of case %s is wrong: %s" %
-                        ("LP answer" if first[2] == "lp-oracle" else "solve_mip result", first[3], cid, first[4][:300]))
+                        ({"lp-oracle": "LP answer", "sub-answer": "solve_mip result", "sat-answer": "is_mip_satisfiable result"}[first[2]],
+                         first[3], cid, first[4][:300]))
             else:
                 site = "correspondence:" + cls
                 what = ("C06 branch-and-bound CORRESPONDENCE-DIFF (%s) at node %s of case %s: the model of solve_mip / "
